@@ -167,7 +167,7 @@ func respCase(id string, g *ggraph, consts []string, b *budget, sample func() bo
 	ops := append([]string{}, vocabLines...)
 	ops = append(ops, "flow f1", "proc f1 D PD")
 	for i := 0; i < g.n; i++ {
-		ops = append(ops, fmt.Sprintf("proc f1 %s PE", key(i)))
+		ops = append(ops, fmt.Sprintf("proc f1 %s PE act=%s", key(i), []string{"side", "resp", "both", "none"}[(i+len(g.edges))%4]))
 	}
 	ops = append(ops, fmt.Sprintf("conn f1 req %s %s", sStart, pe("D", "")))
 	for i := 0; i < g.n; i++ {
@@ -398,7 +398,7 @@ func randCase(r *prng.R, id string, b *budget) proto.Case {
 	ops := append([]string{}, vocabLines...)
 	ops = append(ops, "flow f1")
 	for i := 0; i < n; i++ {
-		ops = append(ops, fmt.Sprintf("proc f1 %s PE", key(i)))
+		ops = append(ops, fmt.Sprintf("proc f1 %s PE act=%s", key(i), prng.Pick(r, []string{"side", "side", "resp", "both", "none"})))
 	}
 	ops = append(ops, rq.conns("f1", "req")...)
 	ops = append(ops, rs.conns("f1", "res")...)
